@@ -43,6 +43,9 @@ fn all_names(maxlen: usize) -> Vec<String> {
 
 fn special_names() -> Vec<String> {
     [
+        // first repository (8 roles, in this delegation order): names that are what a temporary / hidden /
+        // backup file of ANOTHER role's file (or of a fixed file) would be called
+        ".w", "w", "w.tmp", "w~", ".targets", ".snapshot", ".timestamp", "w.json.tmp",
         ".", "..", "...", "a.json", ".json", "a/b", "a%2Fb", "a%252Fb", "a%2fb", "a\\b", "a%5Cb", "../a", "..%2Fa", "%2E%2E%2Fa", "a/../b", "a?x", "a%3Fx", "a#x", "a%23x",
         "a b", "a%20b", "a+b", "A", "a", "%61", "%", "%%", "%2", "a:", "c:/x", "\u{e9}", "%C3%A9", "e\u{301}", "/", "//", "/a", "a/", "~", "-", "_", "a.b.json", "1.a", "1.a.json",
     ]
